@@ -60,12 +60,27 @@ class rcu_guarded {
         {
             other.m_accessed = false;
         }
-        write_handle& operator=(write_handle other) noexcept
+        write_handle& operator=(const write_handle& other)
+        {
+            if (this != &other) {
+                write_handle tmp(other);
+                swap(tmp);
+            }
+            return *this;
+        }
+        write_handle& operator=(write_handle&& other) noexcept
+        {
+            if (this != &other) {
+                write_handle tmp(std::move(other));
+                swap(tmp);
+            }
+            return *this;
+        }
+        void swap(write_handle& other) noexcept
         {
             std::swap(m_ptr, other.m_ptr);
             std::swap(m_guard, other.m_guard);
             std::swap(m_accessed, other.m_accessed);
-            return *this;
         }
 
         ~write_handle()
@@ -122,12 +137,27 @@ class rcu_guarded {
         {
             other.m_accessed = false;
         }
-        read_handle& operator=(read_handle other) noexcept
+        read_handle& operator=(const read_handle& other)
+        {
+            if (this != &other) {
+                read_handle tmp(other);
+                swap(tmp);
+            }
+            return *this;
+        }
+        read_handle& operator=(read_handle&& other) noexcept
+        {
+            if (this != &other) {
+                read_handle tmp(std::move(other));
+                swap(tmp);
+            }
+            return *this;
+        }
+        void swap(read_handle& other) noexcept
         {
             std::swap(m_ptr, other.m_ptr);
             std::swap(m_guard, other.m_guard);
             std::swap(m_accessed, other.m_accessed);
-            return *this;
         }
 
         ~read_handle()
